@@ -12,7 +12,7 @@ from common import frac_str
 RULE = ("random dimension triples (N,K,M) in 0..4 incl. zeros, dyadic complex blocks (contractive so the inner "
         "system is well conditioned), batch sizes 1-5, plus streams with mismatched intermediate dimensions and "
         "exactly singular inner systems, and `structured` operands whose blocks are independently zero / identity / 0-1 "
-        "permutation-like / random (through-connections, isolators, mirrors; square dimensions favoured); distinct = distinct (dims, entries); non-trivial = K >= 1 and at least one "
+        "permutation-like / sparse rank-deficient / random (through-connections, isolators, mirrors; square dimensions favoured), `oneway` pairs whose coupling blocks multiply to zero in one order only; distinct = distinct (dims, entries); non-trivial = K >= 1 and at least one "
         "non-zero coupling block")
 TRUSTED = ["translator harness/translate/kernel.py (subset: matmul/@/dot, linalg.inv/solve, identity, +, -, block fields)",
            "numpy matmul/inv slice-wise broadcasting along the sweep axis (assumption A-numpy-batch, exercised here)"]
@@ -35,13 +35,19 @@ def structured_smat(rng, N, M):
     from fractions import Fraction
 
     def block(r, c):
-        k = rng.choice(["zero", "eye", "eye", "perm", "rand"])
+        k = rng.choice(["zero", "eye", "eye", "perm", "partial", "partial", "rand"])
         if k == "rand":
             return gen.cmat(rng, r, c, mag=0.6)
         m = [[gen.CZ for _ in range(c)] for _ in range(r)]
         if k == "eye":
             for i in range(min(r, c)):
                 m[i][i] = (Fraction(1), Fraction(0))
+        if k == "partial":
+            # rank-deficient sparse block: a few non-zero entries (one-way paths; products that vanish in one order only)
+            for i in range(r):
+                for j in range(c):
+                    if rng.random() < 0.3:
+                        m[i][j] = (Fraction(1), Fraction(0)) if rng.random() < 0.5 else gen.cdyadic(rng, pzero=0.0)
         if k == "perm" and r and c:
             cols = rng.sample(range(c), min(r, c))
             for i, j in zip(rng.sample(range(r), min(r, c)), cols):
@@ -229,6 +235,27 @@ def gen_case(rng, kind):
         one = lambda i, j: (Fraction(1 if i == j else 0), Fraction(0))
         As[0]["S12"] = [[one(i, j) for j in range(K)] for i in range(K)]
         Bs[0]["S21"] = [[one(i, j) for j in range(K)] for i in range(K)]
+    if kind == "oneway":
+        # coupling blocks whose product vanishes in one order only: A.S12 lives on the columns J, B.S21 on the rows
+        # outside J (so A.S12 B.S21 = 0 while B.S21 A.S12 != 0), or the mirror image; everything else dense
+        K = max(K, 2)
+        N, M = max(N, 1), max(M, 1)
+        ns = rng.randint(1, 3)
+        J = set(rng.sample(range(K), rng.randint(1, K - 1)))
+        flip = rng.random() < 0.5
+        As, Bs = [], []
+        for _ in range(ns):
+            A, B = rand_smat(rng, N, K), rand_smat(rng, K, M)
+            for i in range(K):
+                for j in range(K):
+                    inA = (j in J) if not flip else (i not in J)
+                    inB = (i not in J) if not flip else (j in J)
+                    if not inA:
+                        A["S12"][i][j] = gen.CZ
+                    if not inB:
+                        B["S21"][i][j] = gen.CZ
+            As.append(A)
+            Bs.append(B)
     if kind == "structured":
         for _ in range(30):
             c = gen_case_structured(rng, N, K, M)
@@ -282,7 +309,7 @@ def run(ctx):
         if ctx.time_left() < 0:
             break
         r = rng.random()
-        kind = "mismatch" if r < 0.08 else "singular" if r < 0.14 else "structured" if r < 0.4 else "regular"
+        kind = "mismatch" if r < 0.08 else "singular" if r < 0.14 else "structured" if r < 0.4 else "oneway" if r < 0.5 else "regular"
         case = gen_case(rng, kind)
         A0, B0 = case["As"][0], case["Bs"][0]
         nz = any(z != gen.CZ for row in A0["S12"] for z in row) and any(z != gen.CZ for row in B0["S21"] for z in row)
